@@ -387,7 +387,9 @@ def register(E):
     m0 = z3.Const('m0', usort('Module'))
     E.axioms.append(z3.ForAll([m0], mod_path_n(m0) >= 0))
     TEST_DIRS['yield_handler'] = testdirs_yield
-    walk_syntactic(E)
+    if ('walk_syntactic',) not in E.added_axioms:
+        E.added_axioms.add(('walk_syntactic',))
+        walk_syntactic(E)
     E.add_contract('find.test_dirs', TEST_DIRS)
     E.add_contract('options.get_options@prefix', PREFIX_SORT)
     E.add_contract('find.find_test_files_', FILES_)
